@@ -1079,3 +1079,9 @@ V("c03-twin-simplify-driver-renamed-locals", "C03", "-", "dask_array/_expr.py", 
   ("dask_array/_expr.py", "        if out._name != expr._name:\n            inherit(expr, out)\n            expr = out\n\n        # Allow children", "        if out._name != expr._name:\n            hand_over(expr, out)\n            expr = out\n\n        # Allow children"),
   ("dask_array/_expr.py", "            if out is not expr and out._name != expr._name:\n                inherit(expr, out)\n                expr = out\n                break", "            if out is not expr and out._name != expr._name:\n                hand_over(expr, out)\n                expr = out\n                break"),
 ])
+V("c03-twin-simplify-driver-hand-over-in-method", "C03", "-", "dask_array/_expr.py", None, None, twin=True, edits=[
+  ("dask_array/_expr.py", "        def inherit(old, new):\n            refs = dependents.get(old._name)\n            if refs:\n                seen = dependents[new._name]\n                seen.extend(ref for ref in refs if ref not in seen)\n\n", ""),
+  ("dask_array/_expr.py", "        if out._name != expr._name:\n            inherit(expr, out)\n            expr = out\n\n        # Allow children", "        if out._name != expr._name:\n            self._hand_over_consumers(expr, out, dependents)\n            expr = out\n\n        # Allow children"),
+  ("dask_array/_expr.py", "            if out is not expr and out._name != expr._name:\n                inherit(expr, out)\n                expr = out\n                break", "            if out is not expr and out._name != expr._name:\n                self._hand_over_consumers(expr, out, dependents)\n                expr = out\n                break"),
+  ("dask_array/_expr.py", "    def simplify_once(self, dependents, simplified):\n        \"\"\"``Expr.simplify_once`` with one addition", "    @staticmethod\n    def _hand_over_consumers(old, new, dependents):\n        refs = dependents.get(old._name)\n        if refs:\n            seen = dependents[new._name]\n            seen.extend(ref for ref in refs if ref not in seen)\n\n    def simplify_once(self, dependents, simplified):\n        \"\"\"``Expr.simplify_once`` with one addition"),
+])
